@@ -9,6 +9,7 @@ From RtoscV Require Import Ports.WalkModel Ports.DispatchModel Ports.TreeProofs 
 From RtoscV Require Import Save.TreeApp Save.DispatchStage Save.TreeStage Save.WalkStage Save.TreePipeline.
 From RtoscV Require Pretty.Tok Pretty.PrintModel Pretty.ScanModel Pretty.PrettyProofs Pretty.RunProofs Pretty.ListProofs Pretty.ArrayProofs.
 From RtoscV Require Import Save.PrintStage Save.PrintTotal Save.PrintLines Save.PipelineReal.
+From RtoscV Require Import Save.CondModel Save.CondProofs.
 Import ListNotations.
 Local Open Scope Z_scope.
 
@@ -612,3 +613,10 @@ Proof. exact good_line_examples. Qed.
 (* the class of lines is decidable: the tie evaluates good_line_b on every saved line *)
 Theorem C12_good_line_computed : forall l, good_line_b l = true -> good_line l.
 Proof. exact good_line_b_sound. Qed.
+
+(* the side conditions on the application and the state are decidable: the tie evaluates
+   wf_app_b / full_conditions_b on every generated case (Save/CondModel.v) *)
+Theorem C12_wf_app_computed : forall a, wf_app_b a = true -> wf_app a.
+Proof. exact wf_app_b_sound. Qed.
+Theorem C12_full_conditions_computed : forall a st, full_conditions_b a st = true -> full_conditions a st.
+Proof. exact full_conditions_b_sound. Qed.
